@@ -101,7 +101,7 @@ class Ctx:
         text = open(src).read()
         names = re.findall(r"^(?:Theorem|Corollary)\s+([A-Za-z0-9_']+)", text, re.M)
         res["obligations"] = len(names)
-        hygiene = coq_hygiene()
+        hygiene = coq_hygiene(props_module)
         if hygiene:
             res["log"] = "forbidden constructs: " + "; ".join(hygiene[:5])
             self.proof = res
@@ -279,13 +279,40 @@ def coq_args():
     return ["-Q", ".", "Zix"]
 
 
-def coq_hygiene():
+def coq_deps(module):
+    """transitive closure of the Zix modules a coq/<module>.v file requires (by its Require lines)"""
+    seen, todo = set(), [module]
+    while todo:
+        m = todo.pop()
+        if m in seen:
+            continue
+        p = os.path.join(COQ, m.replace(".", "/") + ".v")
+        if not os.path.exists(p):
+            continue
+        seen.add(m)
+        txt = strip_coq_comments(open(p, errors="replace").read())
+        for stmt in re.findall(r"(?:From\s+(Zix(?:\.[A-Za-z0-9_]+)*)\s+)?Require\s+(?:Import\s+|Export\s+)?([^.]*(?:\.[A-Za-z0-9_]+)*[^.]*)\.\s", txt):
+            prefix, names = stmt
+            for n in names.split():
+                if prefix:
+                    q = (prefix + "." + n)[len("Zix."):] if prefix != "Zix" else n
+                    todo.append(q)
+                elif n.startswith("Zix."):
+                    todo.append(n[len("Zix."):])
+    return sorted(seen)
+
+
+def coq_hygiene(module=None):
+    """forbidden constructs in the files the given Properties module depends on (all coq/*.v when module is None)"""
     bad = []
-    for root, _, files in os.walk(COQ):
-        for fn in files:
-            if not fn.endswith(".v") or fn.startswith("Scratch"):   # scratch files are not part of the build
-                continue
-            p = os.path.join(root, fn)
+    if module:
+        files = [os.path.join(COQ, m.replace(".", "/") + ".v") for m in coq_deps(module)]
+    else:
+        files = []
+        for root, _, fs in os.walk(COQ):
+            files += [os.path.join(root, fn) for fn in fs if fn.endswith(".v") and not fn.startswith("Scratch")]
+    for p in files:
+        if True:
             txt = open(p, errors="replace").read()
             txt = strip_coq_comments(txt)
             for m in FORBIDDEN.finditer(txt):
